@@ -647,7 +647,17 @@ fn push(blocks: &mut UnstableBlocks, utxos: &UtxoSet, block: Block) -> (r: Resul
             && final(blocks).stability_threshold == old(blocks).stability_threshold
             && final(blocks).network == old(blocks).network
             && final(blocks).next_block_headers.offered@ == old(blocks).next_block_headers.offered@,
+        // one leaf more: the tree grows by at most one level; the arrived block's announced header (if any) is removed, none is added
+        old(blocks).tree.wf_depth() ==> final(blocks).tree.wf_depth(),
+        final(blocks).tree.sdepth() <= old(blocks).tree.sdepth() + 1,
+        forall|b: int| old(blocks).next_block_headers.heights_below(b) ==> final(blocks).next_block_headers.heights_below(b),
 { unimplemented!() }
+// [assumption, stated] heights (stable + unstable, announced) stay below 2^31 - 2^17 + slack
+spec fn heights_in_range(s: &State, slack: int) -> bool {
+    &&& s.unstable_blocks.tree.wf_depth()
+    &&& s.utxos.next_height as int + s.unstable_blocks.tree.sdepth() <= 0x7ffe_0000 + slack
+    &&& s.unstable_blocks.next_block_headers.heights_below(0x7ffe_0000 + slack)
+}
 
 //@extract file=canister/src/blocktree.rs item="struct BlockDoesNotExtendTree"
 //@end
@@ -934,6 +944,8 @@ impl<'a> BlockValidator<'a> {
 //@|         && final(state).fees == old(state).fees
 //@|         && final(state).api_access == old(state).api_access
 //@|         && final(state).unstable_blocks.next_block_headers.offered@ == old(state).unstable_blocks.next_block_headers.offered@,
+//@|     // an admitted block raises the heights by at most one
+//@|     forall|k: int| heights_in_range(old(state), k) ==> heights_in_range(final(state), k + 1),
 //@end
 
 // ---------------------------------------------------------------------------------------
